@@ -35,6 +35,10 @@ def programs(tier):
     progs += [('atomic:' + a, 2 if tier == 'quick' else 3, 120) for a in at]
     for a, b in itertools.combinations_with_replacement(SEQ2, 2):
         progs.append(('rng:%s|%s' % (a, b), 2 if tier == 'quick' else 3, 200))
+    # exit-time destructor list of util.c: registrations racing with each other and with the first rngCreate (rngInit registers rngDestroy)
+    for pr in ('rng:E|E', 'rng:E,E|E', 'rng:E|C,X', 'rng:E,C,X|E', 'rng:C,X,E|E,C,X'):
+        progs.append((pr, 2 if tier == 'quick' else 3, 200))
+    progs.append(('rng:E|E|C,X', 1 if tier == 'quick' else 2, 300))
     if tier == 'quick':      # two overlapping re-keyings whose effect is observed by a later request
         progs += [('rng:C,K,R32,X|C,K,X', 2, 300), ('rng:C,K,R32,X|C,K,S32,X', 2, 300)]
     if tier == 'thorough':
@@ -47,10 +51,10 @@ def programs(tier):
     return progs
 
 FREE = {'quick': [('once:16', 25), ('once:2', 25), ('atomic*16:I,D,W1000', 25), ('rng*16:C,R32,S7,K,V,X', 25),
-                  ('rng:C,R32,X|V,V,V|C,X,C,X', 25), ('rng*2:C,S32,X', 25)],
+                  ('rng:C,R32,X|V,V,V|C,X,C,X', 25), ('rng*2:C,S32,X', 25), ('rng*8:E,C,R32,X', 25)],
         'thorough': [('once:16', 200), ('once:2', 200), ('once:5', 200), ('atomic*16:I,D,W1000', 200), ('atomic*3:I,I,D', 200),
                      ('rng*16:C,R32,S7,K,V,X', 200), ('rng*8:C,R32,X,C,K,X', 200), ('rng:C,R32,X|V,V,V|C,X,C,X', 200),
-                     ('rng*2:C,S32,X', 200), ('rng*3:V,C,R7,X', 200), ('rng:V|C,X', 300), ('rng*4:c,R32,X', 200)]}
+                     ('rng*2:C,S32,X', 200), ('rng*3:V,C,R7,X', 200), ('rng*8:E,C,R32,X', 200), ('rng*16:E', 200), ('rng:V|C,X', 300), ('rng*4:c,R32,X', 200)]}
 
 FREE_TIMEOUT = 240
 
